@@ -31,6 +31,35 @@ RECURSIVE Pow(_, _)
 Pow(a, n) == IF n = 0 THEN 1 ELSE a * Pow(a, n - 1)
 Min2(a, b) == IF a < b THEN a ELSE b
 
+(* ------------------------------------------------------------------ labels *)
+(* Reference ids, the positions stored with from_kmer_selection / from_positions and the
+   positions handed to match_kmer_selection are free labels of the caller: unsigned 32-bit
+   integers (documented dtype uint32) that a table stores and reports, and never computes with.
+   Every operator below uses them only as values (equality, membership in tuples), so a label
+   may be any TLA+ value.  Labels beyond TLC's 32-bit signed integers are written as two 16-bit
+   limbs  <<"u32", hi, lo>> = hi * 2^16 + lo ; the driver maps them to and from Python ints.
+   (Ids / positions of the small-integer families stay plain integers: one table never mixes the
+   two forms in one column.) *)
+Limb == 65536
+U32(hi, lo) == <<"u32", hi, lo>>
+Dom_Label(x) == Len(x) = 3 /\ x[1] = "u32" /\ x[2] \in 0..(Limb - 1) /\ x[3] \in 0..(Limb - 1)
+LabelLess(x, y) == x[2] < y[2] \/ (x[2] = y[2] /\ x[3] < y[3])
+\* the label of 2^w (w < 32) and the predecessor of a non-zero label
+PowerLabel(w) == IF w < 16 THEN U32(0, Pow(2, w)) ELSE U32(Pow(2, w - 16), 0)
+PredLabel(x) == IF x[3] > 0 THEN U32(x[2], x[3] - 1) ELSE U32(x[2] - 1, Limb - 1)
+(* the labels at the limits of every width through which a 32-bit label could be read or copied
+   (signed / unsigned 8, 16, 32 bit): 0, 2^w - 1 and 2^w for w in {7, 8, 15, 16, 31}, 2^32 - 1 *)
+LabelWidths == {7, 8, 15, 16, 31}
+BoundaryLabels ==
+  {U32(0, 0), U32(Limb - 1, Limb - 1)} \cup {PowerLabel(w) : w \in LabelWidths} \cup {PredLabel(PowerLabel(w)) : w \in LabelWidths}
+BoundarySeq == SetToSortSeq(BoundaryLabels, LabelLess)
+\* the d-th cyclic successor of a boundary label in ascending order (2^32 - 1 is followed by 0)
+LabelIndex(x) == CHOOSE i \in DOMAIN BoundarySeq : BoundarySeq[i] = x
+ShiftLabel(x, d) == BoundarySeq[((LabelIndex(x) - 1 + d) % Len(BoundarySeq)) + 1]
+ASSUME /\ Cardinality(BoundaryLabels) = 12 /\ \A x \in BoundaryLabels : Dom_Label(x)
+       /\ {U32(32767, 65535), U32(32768, 0), U32(65535, 65535), U32(0, 127), U32(0, 128)} \subseteq BoundaryLabels
+       /\ ShiftLabel(U32(32767, 65535), 1) = U32(32768, 0) /\ ShiftLabel(U32(65535, 65535), 1) = U32(0, 0)
+
 (* ------------------------------------------------------------------ k-mers *)
 Symbols(A) == 0..(A - 1)
 AllKmers(A, k) == [1..k -> Symbols(A)]
@@ -81,16 +110,22 @@ Dom_Mask(om, n) == IsNone(om) \/ Len(om[1]) = n
 KB_SpacedMask(om, spacedAlphabet) == spacedAlphabet /\ ~IsNone(om)
 
 (* ------------------------------------------------------------------ similarity *)
-\* a rule is NoneV (identity) or Opt([M |-> symmetric A x A score matrix, t |-> threshold])
+(* a rule is NoneV (identity) or Opt([M |-> symmetric n x n score matrix, t |-> threshold]) with
+   n >= A: the matrix may be defined over a larger alphabet that extends the table's (the
+   class accepts it; only the leading A x A block scores k-mers).  Nothing is assumed about the
+   entries: a diagonal entry need not be the maximum of its row (wildcard-like symbols, e.g. X
+   in BLOSUM62 with X/X = -1 < X/A = 0) and may be negative. *)
 Score(M, a, b) == FoldLeft(LAMBDA acc, j : acc + M[a[j] + 1][b[j] + 1], 0, [j \in 1..Len(a) |-> j])
 Similar(rule, a, b) == IF IsNone(rule) THEN a = b ELSE Score(rule[1].M, a, b) >= rule[1].t
 SimilarSet(rule, a, A) == {b \in AllKmers(A, Len(a)) : Similar(rule, a, b)}
 Dom_Rule(rule, A) ==
-  IsNone(rule) \/ (Len(rule[1].M) = A /\ \A x, y \in 1..A : rule[1].M[x][y] = rule[1].M[y][x])
+  IsNone(rule) \/ (Len(rule[1].M) >= A /\ \A x, y \in 1..Len(rule[1].M) : Len(rule[1].M[x]) = Len(rule[1].M) /\ rule[1].M[x][y] = rule[1].M[y][x])
 
 (* implementation-shaped: ScoreThresholdRule.similar_kmers is a branch-and-bound search;
    position p is only entered if the score of the prefix can still reach the threshold
-   assuming the maximal row score at every later position *)
+   assuming the maximal row score at every later position.  The bound is the maximum of the
+   whole (untrimmed) matrix row - not the diagonal entry: the search is exact only because the
+   bound is an upper bound of every entry the row can contribute (InvSimilar / InvTable). *)
 RowMax(M, x) == FoldLeft(LAMBDA acc, y : IF M[x + 1][y] > acc THEN M[x + 1][y] ELSE acc, M[x + 1][1], [y \in 1..Len(M) |-> y])
 PosThreshold(M, t, a, p) ==
   t - FoldLeft(LAMBDA acc, j : acc + RowMax(M, a[j]), 0, [j \in 1..(Len(a) - p) |-> p + j])
@@ -183,6 +218,9 @@ BucketMatchTable(B, C, rule, A, nb) ==
   UNION {UNION {{<<u[2], u[3], e[2], e[3]>> : e \in {x \in ToSet(B[BucketOf(sk, A, nb)]) : x[1] = sk}}
                 : sk \in ImplSimilarSet(rule, u[1], A)}
          : u \in BucketAbs(C)}
+\* match_kmer_selection: the given position, then every entry of that k-mer in its bucket
+BucketMatchSelection(B, positions, kmers, A, nb) ==
+  UNION {{<<positions[i], e[2], e[3]>> : e \in {x \in ToSet(B[BucketOf(kmers[i], A, nb)]) : x[1] = kmers[i]}} : i \in DOMAIN kmers}
 BucketCount(B, km, A, nb) == Len(SelectSeq(B[BucketOf(km, A, nb)], LAMBDA e : e[1] = km))
 BucketLookup(B, km, A, nb) == {<<e[2], e[3]>> : e \in {x \in ToSet(B[BucketOf(km, A, nb)]) : x[1] = km}}
 
